@@ -175,7 +175,23 @@ def _c20_trace_kwargs():
     return t.kwargs != {"clip_on": False}, {"reproduce": "magpylib.graphics.Trace3d(backend='matplotlib', constructor='plot', kwargs={'clip_on': False}).kwargs", "got": repr(t.kwargs)}
 
 
+def _c13_triangle_clamp_band():
+    """Triangle (0,0,0), (4,0,0), (0,4,0) and its halves through the midpoint of the first edge, observer 1e-10 above the cut line:
+    the whole's solid angle is clamped to 0 (B_z = 0), the halves' are not (B_z = sigma/2)"""
+    import magpylib as magpy
+    a, b, c, m = (0, 0, 0), (4, 0, 0), (0, 4, 0), (2, 0, 0)
+    obs = (1.0, 2.0, 1e-10)
+    with warnings.catch_warnings():
+        warnings.simplefilter("ignore")
+        whole = magpy.getB(magpy.misc.Triangle(vertices=[a, b, c], polarization=(0, 0, 1)), obs)
+        halves = magpy.getB([magpy.misc.Triangle(vertices=[a, m, c], polarization=(0, 0, 1)), magpy.misc.Triangle(vertices=[m, b, c], polarization=(0, 0, 1))], obs, sumup=True)
+        tet = magpy.getB(magpy.magnet.Tetrahedron(vertices=[(0, 0, 0), (1, 0, 0), (0, 1, 0), (0, 0, 1)], polarization=(0, 0, 1)), [(0.25, 0.25, 1e-10), (0.25, 0.25, 1e-6)])
+    return bool(abs(whole[2] - halves[2]) > 0.1), {"observer": list(obs), "B_whole": np.asarray(whole).tolist(), "B_halves": np.asarray(halves).tolist(),
+                                                   "tetrahedron_Bz_at_1e-10_and_1e-6_above_a_face": [float(tet[0][2]), float(tet[1][2])]}
+
+
 REPLAYS = {
+    "C13": {"representation:triangle-split:clamp-band": _c13_triangle_clamp_band},
     # coerced-entry:None / coerced-entry:numeric-string are repaired (known_findings.json, `fixed`): make_float_array refuses entries that
     # are not numbers; their inputs are fixed rows of the valid stream and grammar values of oracles/c17.py
     "C17": {"foreign-error:TriangularMesh.from_mesh:ValueError": _c17_from_mesh_valueerror},
